@@ -122,7 +122,70 @@ def tvgbuild_case(rec: 'Rec', tx: dict, tx_fields: List[str], idmap: Dict[str, i
         vs.append(f'{s}:{e}:{r}:{a}:{t}:{idmap.setdefault(vid, len(idmap))}')
     line = '\t'.join(['G', 'tvgbuild'] + tx_fields + ['1' if tx['orf'] else '0', ';'.join(vs)])
     same = sorted(tuple(v) for v in given) == sorted(tuple(v) for v in tx['vars'])
-    return line, canon_tvg(d, idmap), same
+    lang_line = '\t'.join(['G', 'tvglang'] + tx_fields + ['1' if tx['orf'] else '0', ';'.join(vs)])
+    lang = tvglang_real(d, idmap, getattr(rec, 'tvg_frames', [0, 1, 2]))
+    if not lang.startswith('skip:'):
+        lang = f'in={1 if pool_input_ok(tx, given) else 0};' + lang
+    return line, canon_tvg(d, idmap), same, lang_line, lang
+
+
+def pool_input_ok(tx: dict, given) -> bool:
+    """`Tvg.poolInputOk` (Model/TvgLang.lean) evaluated independently on the REAL call's input: the
+    hypothesis of `Props.C01.tvg_create_variant_graph_language_eq` — known ORF iff the sequence
+    carries one, records non-empty stretches inside the transcript, typed INDEL exactly when the
+    alleles make an insertion or a deletion, ascending starts (max_adjacent_as_mnv is the default 2
+    in every run of the harness)"""
+    if bool(tx['coding']) != bool(tx['orf']) or len(tx['seq']) < 3:
+        return False
+    prev = None
+    for (s, e, r, a, t, _vid) in given:
+        if t not in SMALL_TYPES or not (s < e <= len(tx['seq'])):
+            return False
+        ins = len(r) == 1 and not a.startswith('<') and len(a) > 1
+        dele = len(r) > 1 and len(a) == 1
+        if (t == 'INDEL') != (ins or dele):
+            return False
+        if prev is not None and prev > s:
+            return False
+        prev = s
+    return True
+
+
+TVGLANG_CAP = 12      # `tvgLangCap` of Driver/G.lean
+
+
+def tvglang_real(d: dict, idmap: Dict[str, int], frames: List[int]) -> str:
+    """the record lists of ALL maximal paths of the REAL graph after create_variant_graph, per frame
+    that is active from the start, from the child of the frame root, enumerated by walking the
+    dumped graph (no model involved), in the form `G tvglang` prints `Tvg.attachedSubs` of the
+    model's graph (`Props.C01.tvg_attached_subs_spec`): `f<frame>=<sorted keys>`; a key = the ids
+    of each variant node of the path joined by `+`, the nodes by `|`, `-` for no record"""
+    nodes = {n['id']: n for n in d['nodes']}
+
+    def key(n):
+        return '+'.join(str(idmap[v]) for v in n['vars'])
+    if len({key(n) for n in d['nodes'] if n['vars']}) > TVGLANG_CAP:
+        return 'skip:too-many-records'
+    out = []
+    for f in frames:
+        paths = set()
+        stack = [(o, ()) for o in nodes[d['rfs'][f]]['out']]
+        steps = 0
+        while stack:
+            nid, taken = stack.pop()
+            steps += 1
+            if steps > 2000000:
+                return 'skip:too-many-paths'
+            n = nodes[nid]
+            if n['vars']:
+                taken = taken + (key(n),)
+            if not n['out']:
+                paths.add('|'.join(taken) or '-')
+            else:
+                for o in n['out']:
+                    stack.append((o, taken))
+        out.append(f'f{f}=' + ','.join(sorted(paths)))
+    return ';'.join(out)
 
 
 def dump_pvg(g) -> dict:
@@ -197,6 +260,12 @@ def capture(store: List[Rec]):
         r = rec_of(self)
         r.tvg_given = given
         r.stages['tvg1'] = dump_tvg(self)
+        # the frames `create_variant_graph` starts with (`active_frames=None`): the known-ORF frame
+        # of the real object, all three otherwise (for the `G tvglang` comparison)
+        try:
+            r.tvg_frames = [int(self.get_known_reading_frame_index())] if self.has_known_orf else [0, 1, 2]
+        except Exception:       # noqa: BLE001 — a graph without `seq.orf`: the comparison is not made
+            r.tvg_frames = [0, 1, 2]
         r.tvg_args = {'n_variants': len(k.get('variants', a[0] if a else []))}
         return res
 
